@@ -1,0 +1,21 @@
+package helpers
+
+import (
+	"rare/pkg/logger"
+
+	"github.com/urfave/cli/v2"
+)
+
+// NonNegativeOrFail exits with an invalid-usage error when one of the
+// named row/column/item limit flags was given a negative value
+func NonNegativeOrFail(c *cli.Context, flagNames ...string) {
+	for _, name := range flagNames {
+		if val := c.Int(name); val < 0 {
+			dashes := "--"
+			if len(name) == 1 {
+				dashes = "-"
+			}
+			logger.Fatalf(ExitCodeInvalidUsage, "%s%s must not be negative, is %d", dashes, name, val)
+		}
+	}
+}
